@@ -3,6 +3,7 @@
 use crate::core::*;
 use crate::fail;
 use crate::props::parse_case;
+use crate::refcodec;
 use crate::realnet::{self, RawConn, Transport};
 use crate::sim::{AnySocket, Kind};
 
@@ -25,6 +26,10 @@ pub enum Op {
     ConnectIn(usize),
     /// one message exchange on established connection #j
     Exchange(usize),
+    /// a raw client connects to live bind #k, sends only the first n bytes of its greeting +
+    /// READY and then stays connected without sending more (a handshake pending at whatever
+    /// comes next - in particular at an unbind of that endpoint)
+    StallIn(usize, usize),
 }
 
 #[derive(Debug, Clone, Serialize, Deserialize, PartialEq, Eq, Hash)]
@@ -55,6 +60,7 @@ pub fn bind_outcome(c: &BindCase) -> Outcome {
             let mut live: Vec<Live> = vec![];
             let mut gone: Vec<Endpoint> = vec![];
             let mut conns: Vec<(RawConn, String)> = vec![]; // (connection, endpoint text it was made to)
+            let mut stalled: Vec<(RawConn, String)> = vec![];
             let mut tagn = 0usize;
             for (opi, op) in c.ops.iter().enumerate() {
                 let before: Vec<Endpoint> = {
@@ -124,7 +130,26 @@ pub fn bind_outcome(c: &BindCase) -> Outcome {
                             classes.push("unbind-with-other-binds".into());
                         }
                         let l = live.remove(k);
-                        match realnet::sock_unbind(&mut s, l.endpoint.clone()).await {
+                        if stalled.iter().any(|(_, t)| *t == l.text) {
+                            classes.push("unbind-with-a-handshake-pending".into());
+                        }
+                        let res = match tokio::time::timeout(realnet::LIMIT, realnet::sock_unbind(&mut s, l.endpoint.clone())).await {
+                            Ok(r) => r,
+                            Err(_) => {
+                                fail!(
+                                    f,
+                                    format!("C18/{}/unbind/hangs", who),
+                                    "op {}: unbind({}) did not return within {:?} ({} connection(s) to it were in the middle of their handshake)",
+                                    opi,
+                                    l.text,
+                                    realnet::LIMIT,
+                                    stalled.iter().filter(|(_, t)| *t == l.text).count()
+                                );
+                                // the socket was abandoned in the middle of unbind: stop here
+                                break;
+                            }
+                        };
+                        match res {
                             Ok(()) => {
                                 if !realnet::connect_refused(&l.text).await {
                                     fail!(f, format!("C18/{}/unbind/endpoint-still-accepting", who), "op {}: {} accepts a connection after unbind returned", opi, l.text);
@@ -174,6 +199,26 @@ pub fn bind_outcome(c: &BindCase) -> Outcome {
                                 Ok(()) => conns.push((rc, live[k].text.clone())),
                                 Err(e) => fail!(f, format!("C18/{}/bound-endpoint-does-not-accept", who), "op {}: handshake on {} failed: {}", opi, live[k].text, e),
                             },
+                            Err(e) => fail!(f, format!("C18/{}/bound-endpoint-does-not-accept", who), "op {}: connect to {} failed: {}", opi, live[k].text, e),
+                        }
+                    }
+                    Op::StallIn(k, n) => {
+                        if live.is_empty() {
+                            continue;
+                        }
+                        let k = *k % live.len();
+                        match realnet::raw_connect(&live[k].text).await {
+                            Ok(mut rc) => {
+                                let mut hs = crate::hostile::valid_greeting();
+                                hs.extend_from_slice(&refcodec::encode_ready(kind.a_compatible_peer(), None));
+                                let n = (*n).min(hs.len() - 1);
+                                if let Err(e) = rc.write(&hs[..n]).await {
+                                    fail!(f, format!("C18/{}/bound-endpoint-does-not-accept", who), "op {}: writing {} handshake bytes to {} failed: {}", opi, n, live[k].text, e);
+                                }
+                                // let the accept task pick the connection up
+                                tokio::time::sleep(std::time::Duration::from_millis(5)).await;
+                                stalled.push((rc, live[k].text.clone()));
+                            }
                             Err(e) => fail!(f, format!("C18/{}/bound-endpoint-does-not-accept", who), "op {}: connect to {} failed: {}", opi, live[k].text, e),
                         }
                     }
@@ -234,7 +279,8 @@ pub fn bind_outcome(c: &BindCase) -> Outcome {
                 }
             }
             drop(conns);
-            let _ = realnet::sock_close(s).await;
+            drop(stalled);
+            let _ = tokio::time::timeout(realnet::LIMIT, realnet::sock_close(s)).await;
             (f, classes)
         })
     });
@@ -257,14 +303,15 @@ pub fn gen_bind(s: &mut Src<'_>) -> BindCase {
     let n = s.range(4, 14);
     let mut ops = vec![Op::Bind(s.pick(&[Transport::TcpV4, Transport::Ipc]))];
     for _ in 0..n {
-        let op = match s.weighted(&[5, 2, 1, 4, 2, 4, 4]) {
+        let op = match s.weighted(&[5, 2, 1, 4, 2, 4, 4, 2]) {
             0 => Op::Bind(s.pick(&[Transport::TcpV4, Transport::TcpV4, Transport::TcpV6, Transport::TcpLocalhost, Transport::Ipc, Transport::Ipc])),
             1 => Op::BindDuplicate(s.below(8)),
             2 => Op::BindBadIpc,
             3 => Op::Unbind(s.below(8)),
             4 => Op::UnbindUnknown(s.below(8)),
             5 => Op::ConnectIn(s.below(8)),
-            _ => Op::Exchange(s.below(8)),
+            6 => Op::Exchange(s.below(8)),
+            _ => Op::StallIn(s.below(8), s.pick(&[0usize, 1, 9, 10, 11, 12, 32, 63, 64, 65, 70, 1000])),
         };
         ops.push(op);
     }
@@ -298,6 +345,9 @@ pub fn run(ctx: &Ctx) -> (Report, PropertyMeta) {
                         Op::Exchange(1),
                         Op::UnbindUnknown(0),
                         Op::ConnectIn(0),
+                        Op::StallIn(0, 0),
+                        Op::StallIn(0, 11),
+                        Op::StallIn(0, 70),
                         Op::Unbind(0),
                         Op::Exchange(0),
                         Op::Exchange(2),
@@ -307,7 +357,7 @@ pub fn run(ctx: &Ctx) -> (Report, PropertyMeta) {
         }
     }
     let r = run_cases(ctx, "bind", &cases, bind_outcome);
-    report.exhaustive_parts.push(format!("REP/PULL/ROUTER/PUB x 4 first transports x 2 second transports, fixed 16-op history touching every op kind: {} cases", cases.len()));
+    report.exhaustive_parts.push(format!("REP/PULL/ROUTER/PUB x 4 first transports x 2 second transports, fixed 19-op history touching every op kind: {} cases", cases.len()));
     report.merge(r);
     let n = t.pick(500, 10000);
     let r = run_random(ctx, "bind", n, 30..=60, gen_bind, bind_outcome);
@@ -319,10 +369,11 @@ pub fn run(ctx: &Ctx) -> (Report, PropertyMeta) {
     health(&mut report, "unbind-with-other-binds", total, 200);
     health(&mut report, "failed-op", total, 300);
     health_abs(&mut report, "exchange-on-connection-of-an-unbound-endpoint", 20);
+    health_abs(&mut report, "unbind-with-a-handshake-pending", 30);
 
     let meta = PropertyMeta {
         level: "exploration",
-        rule: "proptest operation sequences (length <= 15) on real REP, PULL, ROUTER and PUB sockets over {bind tcp://127.0.0.1:0, tcp://[::1]:0, tcp://localhost:0, ipc://<fresh path>; bind an endpoint that is already bound; bind an ipc path in a missing directory; unbind a bound endpoint; unbind a never-bound / already unbound endpoint; a raw client connects and completes the handshake; exchange a message on an established connection}, against a reference model of the bind set. Oracle: a successful bind returns an endpoint with a non-zero port whose text form parses back to it and is connectable; binds() equals the model after every operation; a failed bind changes nothing; unbind of a bound endpoint returns Ok, that endpoint refuses connections (IPC file gone) when it returns, every other bound endpoint still completes a handshake and established connections (including those made to the unbound endpoint) still carry a message; anything else fails with NoSuchBind. Non-trivial = an unbind while >= 2 binds exist, or a failed operation; distinct by sequence".into(),
+        rule: "proptest operation sequences (length <= 15) on real REP, PULL, ROUTER and PUB sockets over {bind tcp://127.0.0.1:0, tcp://[::1]:0, tcp://localhost:0, ipc://<fresh path>; bind an endpoint that is already bound; bind an ipc path in a missing directory; unbind a bound endpoint; unbind a never-bound / already unbound endpoint; a raw client connects and completes the handshake; a raw client connects, sends a prefix of its handshake (0..all-but-one bytes) and stays silent; exchange a message on an established connection}, against a reference model of the bind set. Oracle: a successful bind returns an endpoint with a non-zero port whose text form parses back to it and is connectable; binds() equals the model after every operation; a failed bind changes nothing; unbind of a bound endpoint returns (within 5 s, also while connections to it are in the middle of their handshake) Ok, that endpoint refuses connections (IPC file gone) when it returns, every other bound endpoint still completes a handshake and established connections (including those made to the unbound endpoint) still carry a message; anything else fails with NoSuchBind. Non-trivial = an unbind while >= 2 binds exist, or a failed operation; distinct by sequence".into(),
         assumptions: vec![
             "'duplicate bind' uses literal-IP and ipc endpoints only: tcp://localhost:P can legally succeed twice (once per address family)".into(),
             "cases run on one thread and a connection that unexpectedly succeeds is retried 3 times (an unrelated process may be handed a just-released port)".into(),
